@@ -37,6 +37,8 @@ var hostFuncs = map[string]interface{}{
 	"strings.CutSuffix":      strings.CutSuffix,
 	"strings.SplitAfter":     strings.SplitAfter,
 	"strings.Trim":           strings.Trim,
+	"strings.TrimLeft":       strings.TrimLeft,
+	"strings.TrimRight":      strings.TrimRight,
 	"strings.ToValidUTF8":    strings.ToValidUTF8,
 	"strconv.FormatInt":      strconv.FormatInt,
 	"strconv.Quote":          strconv.Quote,
@@ -163,4 +165,126 @@ func callHost(fr *frame, name string, args []value) (value, bool) {
 		t[i] = fromHost(fr, o)
 	}
 	return t, true
+}
+
+// hostRangeTable stands for one of package unicode's range tables (the
+// package's init is not executed; its exported tables are taken from the host).
+type hostRangeTable struct {
+	name string
+	t    *unicode.RangeTable
+}
+
+func hostUnicodeTable(g interface {
+	Name() string
+	String() string
+}) (*value, bool) {
+	if !strings.HasPrefix(g.String(), "unicode.") {
+		return nil, false
+	}
+	var t *unicode.RangeTable
+	if x, ok := unicode.Categories[g.Name()]; ok {
+		t = x
+	} else if x, ok := unicode.Scripts[g.Name()]; ok {
+		t = x
+	} else if x, ok := unicode.Properties[g.Name()]; ok {
+		t = x
+	} else {
+		switch g.Name() {
+		case "Letter":
+			t = unicode.Letter
+		case "Digit":
+			t = unicode.Digit
+		case "Space":
+			t = unicode.Space
+		case "Upper":
+			t = unicode.Upper
+		case "Lower":
+			t = unicode.Lower
+		case "Punct":
+			t = unicode.Punct
+		case "Number":
+			t = unicode.Number
+		case "Symbol":
+			t = unicode.Symbol
+		case "Mark":
+			t = unicode.Mark
+		default:
+			return nil, false
+		}
+	}
+	p := new(value)
+	*p = hostRangeTable{g.Name(), t}
+	return p, true
+}
+
+// extUnicodeIs: unicode.Is(table, r). A symbolic r is decided exactly when
+// the table has few ranges (the formula lists them).
+func extUnicodeIs(fr *frame, args []value) value {
+	ht, ok := args[0].(hostRangeTable)
+	if !ok {
+		panic(Inconclusive{"unicode.Is with a range table that is not one of package unicode's"})
+	}
+	return unicodeIn(ht, args[1])
+}
+
+func unicodeIn(ht hostRangeTable, rv value) value {
+	switch r := rv.(type) {
+	case int32:
+		return unicode.Is(ht.t, r)
+	case SymInt:
+		var alts []string
+		n := 0
+		for _, rg := range ht.t.R16 {
+			n++
+			if rg.Stride == 1 {
+				alts = append(alts, fmt.Sprintf("(and (<= %d %s) (<= %s %d))", rg.Lo, r.T, r.T, rg.Hi))
+			} else {
+				alts = append(alts, fmt.Sprintf("(and (<= %d %s) (<= %s %d) (= (mod (- %s %d) %d) 0))", rg.Lo, r.T, r.T, rg.Hi, r.T, rg.Lo, rg.Stride))
+			}
+		}
+		for _, rg := range ht.t.R32 {
+			n++
+			if rg.Stride == 1 {
+				alts = append(alts, fmt.Sprintf("(and (<= %d %s) (<= %s %d))", rg.Lo, r.T, r.T, rg.Hi))
+			} else {
+				alts = append(alts, fmt.Sprintf("(and (<= %d %s) (<= %s %d) (= (mod (- %s %d) %d) 0))", rg.Lo, r.T, r.T, rg.Hi, r.T, rg.Lo, rg.Stride))
+			}
+		}
+		if n > 24 {
+			panic(Inconclusive{"unicode.Is of a symbolic character with the large table " + ht.name})
+		}
+		if len(alts) == 0 {
+			return false
+		}
+		return SymBool{T: orTerm(alts...)}
+	}
+	panic(Inconclusive{"unicode.Is"})
+}
+
+// extUnicodeIn: unicode.In(r, tables...) / unicode.IsOneOf(tables, r).
+func extUnicodeIn(fr *frame, args []value) value {
+	tabs, ok := args[1].([]value)
+	if !ok {
+		panic(Inconclusive{"unicode.In"})
+	}
+	var res value = false
+	for _, tv := range tabs {
+		ht, ok := tv.(hostRangeTable)
+		if !ok {
+			panic(Inconclusive{"unicode.In with a foreign range table"})
+		}
+		switch b := unicodeIn(ht, args[0]).(type) {
+		case bool:
+			if b {
+				return true
+			}
+		case SymBool:
+			if rb, ok := res.(SymBool); ok {
+				res = SymBool{T: orTerm(rb.T, b.T)}
+			} else {
+				res = b
+			}
+		}
+	}
+	return res
 }
